@@ -449,3 +449,1281 @@ Proof.
   injection He as <- <-. rewrite act_app, act_emit. cbn [active app].
   rewrite <- act_on_rx, E3. reflexivity.
 Qed.
+
+(* ---------------------------------------------------------------------------------------- *)
+(* C15, state-local forms (any state, not only reachable ones) *)
+
+Lemma in_act l o : active o = true -> (In o (map snd l) <-> In o (act l)).
+Proof. intros Ha. unfold act. rewrite filter_In. tauto. Qed.
+
+Definition accepts_solicited (cfg : mcfg) (st : mstate) (src : N) (h : rhdr) (v : verdict) : bool :=
+  accepted_answer cfg st src h &&
+  match s_run st with
+  | RRead _ _ _ _ _ => s_assoc st && match v with VOk => true | _ => false end
+  | _ => true
+  end.
+
+(* who accepts a fragment *)
+Definition accepts (cfg : mcfg) (st : mstate) (ev : mevent) : bool :=
+  match ev with
+  | ERx src frag v items =>
+    negb (s_stopped st) && s_conn st &&
+    match parse_response frag with
+    | PError => false
+    | PResponse h objs =>
+      if h_unsol h then unsol_accepts cfg st src h objs v else accepts_solicited cfg st src h v
+    end
+  | _ => false
+  end.
+
+Lemma in_unsol_act_success cfg st src h objs v items ty fc s :
+  ~ In (OInfoSuccess ty fc s) (unsol_act cfg st src h objs v items).
+Proof.
+  unfold unsol_act, unsol_confirm. destruct (unsol_accepts _ _ _ _ _ _); [|intros []].
+  destruct (unsol_dup st h objs); destruct (c_con (h_ctrl h)); cbn [In app]; rewrite ?in_app_iff; cbn [In];
+    rewrite ?in_map_iff; intros H; repeat (destruct H as [H|H]; try discriminate);
+    try (destruct H as (x & H & _); discriminate); try contradiction.
+Qed.
+
+Lemma in_cb_items o items : In o (map OCbItem items) -> exists it, o = OCbItem it.
+Proof. rewrite in_map_iff. intros (x & <- & _). eauto. Qed.
+
+Ltac brk_in H :=
+  repeat (match type of H with
+          | _ \/ _ => destruct H as [H|H]
+          | In _ (_ ++ _) => apply in_app_or in H
+          | In _ (_ :: _) => destruct H as [H|H]
+          | In _ [] => contradiction
+          | In _ (map OCbItem _) => apply in_cb_items in H; destruct H as [? H]
+          | In _ (if ?c then _ else _) => destruct c eqn:?
+          | In _ (match ?c with _ => _ end) => destruct c eqn:?
+          | False => contradiction
+          end); try discriminate.
+
+(* completion_needs_matching_response, local form: a task reports success only in a step that
+   receives a solicited response from the addressed outstation carrying the sequence number the
+   task expects, FIR/FIN as the task kind demands, FIN set, no IIN2 rejection *)
+Theorem success_local cfg st ev ty fc s :
+  s_stopped st = false -> In (OInfoSuccess ty fc s) (map snd (snd (mstep cfg st ev))) ->
+  exists src frag v items h objs,
+    ev = ERx src frag v items /\ s_conn st = true /\ parse_response frag = PResponse h objs /\
+    h_unsol h = false /\ accepted_answer cfg st src h = true /\ c_fin (h_ctrl h) = true /\
+    c_seq (h_ctrl h) = s.
+Proof.
+  intros Hs Hin. apply in_act in Hin; [|reflexivity]. rewrite act_mstep in Hin by assumption.
+  destruct ev as [src frag v items|ms|tok t| | | | | |]; try contradiction.
+  exists src, frag, v, items. unfold rx_act in Hin.
+  destruct (s_conn st) eqn:Hc; cbn [negb] in Hin; [|contradiction].
+  destruct (parse_response frag) as [|h objs] eqn:Hp; [contradiction|].
+  exists h, objs.
+  destruct (h_unsol h) eqn:Hu; [exfalso; eapply in_unsol_act_success; eauto|].
+  destruct (accepted_answer cfg st src h) eqn:Ha; [|contradiction].
+  assert (Hseq : match s_run st with RNonRead _ q _ _ => c_seq (h_ctrl h) = q /\ c_fin (h_ctrl h) = true
+                 | RRead _ q _ _ _ => c_seq (h_ctrl h) = q | _ => False end).
+  { unfold accepted_answer, is_answer, flags_ok in Ha.
+    destruct (s_run st); try (rewrite !Bool.andb_false_r in Ha; discriminate);
+      apply Bool.andb_true_iff in Ha; destruct Ha as [Ha _]; apply Bool.andb_true_iff in Ha; destruct Ha as [Ha Hf];
+      apply Bool.andb_true_iff in Ha; destruct Ha as [_ Ha]; apply N.eqb_eq in Ha.
+    - apply Bool.andb_true_iff in Hf. tauto.
+    - exact Ha. }
+  repeat split; try reflexivity.
+  - destruct (s_run st) as [|k seq d sd|k seq first d sd|tok d]; try contradiction; [tauto|].
+    unfold rd_act, sol_confirm in Hin. brk_in Hin. reflexivity.
+  - destruct (s_run st) as [|k seq d sd|k seq first d sd|tok d]; try contradiction.
+    + destruct Hseq as [Hseq _]. unfold sol_confirm, nr_act in Hin. brk_in Hin;
+        injection Hin as _ _ <-; exact Hseq.
+    + unfold rd_act, sol_confirm in Hin. brk_in Hin; injection Hin as _ _ <-; exact Hseq.
+Qed.
+
+(* the same for the user's promise *)
+Theorem res_ok_local cfg st ev tok r :
+  s_stopped st = false -> (r = ROk \/ exists ms, r = ROkMs ms) ->
+  In (ORes tok r) (map snd (snd (mstep cfg st ev))) ->
+  exists src frag v items h objs,
+    ev = ERx src frag v items /\ s_conn st = true /\ parse_response frag = PResponse h objs /\
+    h_unsol h = false /\ accepted_answer cfg st src h = true /\ c_fin (h_ctrl h) = true.
+Proof.
+  intros Hs Hr Hin. apply in_act in Hin; [|destruct Hr as [->|[ms ->]]; reflexivity].
+  rewrite act_mstep in Hin by assumption.
+  destruct ev as [src frag v items|ms|tok' t| | | | | |]; try contradiction.
+  exists src, frag, v, items. unfold rx_act in Hin.
+  destruct (s_conn st) eqn:Hc; cbn [negb] in Hin; [|contradiction].
+  destruct (parse_response frag) as [|h objs] eqn:Hp; [contradiction|].
+  exists h, objs.
+  destruct (h_unsol h) eqn:Hu.
+  { exfalso. unfold unsol_act, unsol_confirm in Hin. brk_in Hin. }
+  destruct (accepted_answer cfg st src h) eqn:Ha; [|contradiction].
+  repeat split; try reflexivity.
+  unfold accepted_answer, flags_ok in Ha.
+  destruct (s_run st) as [|k seq d sd|k seq first d sd|tok' d]; try contradiction.
+  - apply Bool.andb_true_iff in Ha. destruct Ha as [Ha _]. apply Bool.andb_true_iff in Ha. destruct Ha as [_ Ha].
+    apply Bool.andb_true_iff in Ha. tauto.
+  - unfold rd_act, sol_confirm in Hin. brk_in Hin; reflexivity.
+Qed.
+
+(* reject_is_inert, local forms.  (1) a fragment that is not accepted - unparsable header,
+   solicited response that is stale, foreign, mis-flagged or rejected by IIN2, solicited response
+   with nothing outstanding, unsolicited response that is gated, foreign or malformed - produces no
+   completion, no callback, no confirmation *)
+Theorem reject_is_inert_local cfg st ev :
+  s_stopped st = false -> accepts cfg st ev = false -> act (snd (mstep cfg st ev)) = [].
+Proof.
+  intros Hs Ha. rewrite act_mstep by assumption.
+  destruct ev as [src frag v items|ms|tok t| | | | | |]; try reflexivity.
+  unfold accepts in Ha. rewrite Hs in Ha. unfold rx_act.
+  destruct (s_conn st); cbn [negb andb] in *; [|reflexivity].
+  destruct (parse_response frag) as [|h objs]; [reflexivity|].
+  destruct (h_unsol h).
+  - unfold unsol_act. rewrite Ha. reflexivity.
+  - unfold accepts_solicited in Ha. destruct (accepted_answer cfg st src h); cbn [andb] in Ha; [|reflexivity].
+    destruct (s_run st); try discriminate. rewrite Ha. reflexivity.
+Qed.
+
+(* (2) while a request is outstanding, a solicited response from another source or with another
+   sequence number is exactly as good as silence: the step is the step of [ESleep 0] plus the
+   echo of the parser's verdict *)
+Theorem stale_is_silence cfg st src frag v items h objs :
+  s_stopped st = false -> s_conn st = true ->
+  parse_response frag = PResponse h objs -> h_unsol h = false -> is_answer cfg st src h = false ->
+  (exists k q d sd, s_run st = RNonRead k q d sd) \/ (exists k q f d sd, s_run st = RRead k q f d sd) ->
+  fst (mstep cfg st (ERx src frag v items)) = fst (mstep cfg st (ESleep 0)) /\
+  exists rest, snd (mstep cfg st (ESleep 0)) = (s_now st, OStep) :: rest /\
+               snd (mstep cfg st (ERx src frag v items)) = (s_now st, OStep) :: (s_now st, OPv v) :: rest.
+Proof.
+  intros Hs Hc Hp Hu Hans Hrun.
+  assert (Hev : on_event cfg st (ERx src frag v items) = (st, emit st (OPv v))).
+  { cbn [on_event]. unfold on_rx. rewrite Hc, Hp. cbn [negb]. unfold is_answer in Hans.
+    destruct Hrun as [(k & q & d & sd & Hr)|(k & q & f & d & sd & Hr)]; rewrite Hr in *.
+    - unfold on_nonread_rx. rewrite Hu.
+      destruct (src =? c_addr cfg); cbn [negb andb] in *; [|rewrite app_nil_r; reflexivity].
+      rewrite Hans. cbn [negb]. rewrite app_nil_r. reflexivity.
+    - unfold on_read_rx. rewrite Hu.
+      destruct (src =? c_addr cfg); cbn [negb andb] in *; [|rewrite app_nil_r; reflexivity].
+      rewrite Hans. cbn [negb]. rewrite app_nil_r. reflexivity. }
+  unfold mstep. rewrite Hs, Hev. cbn [on_event span_of]. unfold then_pump.
+  destruct (run_pump cfg st) as [st1 o1]. replace (0 + 1) with 1 by reflexivity.
+  destruct (advance _ cfg st1 _) as [st2 o2]. cbn [fst snd]. split; [reflexivity|].
+  exists (o1 ++ o2). rewrite !emit_app_cons. split; reflexivity.
+Qed.
+
+Definition is_confirm (o : mobs) : bool := match o with OTxConfirm _ _ _ => true | _ => false end.
+Definition confirms (l : list tobs) : list mobs := filter is_confirm (map snd l).
+
+Lemma confirms_act l : confirms l = filter is_confirm (act l).
+Proof.
+  unfold confirms, act. induction (map snd l) as [|o m IH]; [reflexivity|].
+  cbn [filter]. destruct (active o) eqn:Ea.
+  - cbn [filter]. rewrite IH. reflexivity.
+  - destruct o; try discriminate; cbn [is_confirm]; exact IH.
+Qed.
+
+Lemma filter_confirm_items items : filter is_confirm (map OCbItem items) = [].
+Proof. induction items; cbn; auto. Qed.
+
+Definition frag_con (ev : mevent) : bool :=
+  match ev with
+  | ERx _ frag _ _ => match parse_response frag with PResponse h _ => c_con (h_ctrl h) | PError => false end
+  | _ => false
+  end.
+
+(* confirm_exactly_once, local form: a step writes a CONFIRM iff it accepts a fragment that asks
+   for one, then exactly one, to the outstation, with the fragment's sequence number and UNS bit
+   iff the fragment is unsolicited *)
+Theorem confirm_exactly_once_local cfg st ev :
+  s_stopped st = false ->
+  confirms (snd (mstep cfg st ev)) =
+  if accepts cfg st ev && frag_con ev then
+    match ev with
+    | ERx _ frag _ _ =>
+      match parse_response frag with
+      | PResponse h _ => [OTxConfirm (c_addr cfg) (h_unsol h) (c_seq (h_ctrl h))]
+      | PError => []
+      end
+    | _ => []
+    end
+  else [].
+Proof.
+  intros Hs. rewrite confirms_act, act_mstep by assumption.
+  destruct ev as [src frag v items|ms|tok t| | | | | |]; try reflexivity.
+  unfold rx_act, accepts, frag_con. rewrite Hs.
+  destruct (s_conn st); cbn [negb andb]; [|reflexivity].
+  destruct (parse_response frag) as [|h objs]; [reflexivity|].
+  destruct (h_unsol h) eqn:Hu.
+  - unfold unsol_act, unsol_confirm. destruct (unsol_accepts cfg st src h objs v); cbn [andb]; [|reflexivity].
+    destruct (unsol_dup st h objs); destruct (c_con (h_ctrl h)); cbn [filter is_confirm app];
+      rewrite ?filter_app, ?filter_confirm_items; cbn [filter is_confirm app]; reflexivity.
+  - unfold accepts_solicited. destruct (accepted_answer cfg st src h) eqn:Ha; cbn [andb]; [|reflexivity].
+    destruct (s_run st) as [|k seq d sd|k seq first d sd|tok d] eqn:Hr.
+    + unfold accepted_answer, is_answer in Ha. rewrite Hr in Ha. rewrite !Bool.andb_false_r in Ha. discriminate.
+    + assert (Hq : c_seq (h_ctrl h) = seq).
+      { unfold accepted_answer, is_answer in Ha. rewrite Hr in Ha.
+        apply Bool.andb_true_iff in Ha. destruct Ha as [Ha _]. apply Bool.andb_true_iff in Ha. destruct Ha as [Ha _].
+        apply Bool.andb_true_iff in Ha. destruct Ha as [_ Ha]. apply N.eqb_eq in Ha. exact Ha. }
+      rewrite filter_app. unfold sol_confirm.
+      assert (Hn : filter is_confirm (if s_assoc st then nr_act k seq objs v else []) = []).
+      { destruct (s_assoc st); [|reflexivity]. unfold nr_act.
+        destruct k as [tok ph hs|tok|tok fc0|tok cold|a]; try reflexivity.
+        - destruct v; try reflexivity. destruct (compare hs objs); try reflexivity. destruct ph; reflexivity.
+        - destruct objs; reflexivity.
+        - destruct objs; reflexivity.
+        - destruct v; try reflexivity. destruct (restart_delay objs); reflexivity. }
+      rewrite Hn, app_nil_r. destruct (c_con (h_ctrl h)); reflexivity.
+    + destruct (s_assoc st && _); cbn [andb]; [|reflexivity].
+      unfold rd_act, sol_confirm. rewrite !filter_app. cbn [filter is_confirm].
+      rewrite filter_app, filter_confirm_items. cbn [filter is_confirm app].
+      assert (Hn : filter is_confirm
+                 (if c_fin (h_ctrl h)
+                  then match k with RDUser tok => [ORes tok ROk] | RDIntegrity => [] end ++ [OInfoSuccess (rd_type k) 1 seq]
+                  else []) = []).
+      { destruct (c_fin (h_ctrl h)); [|reflexivity]. destruct k; reflexivity. }
+      rewrite Hn, app_nil_r. destruct (c_con (h_ctrl h)); reflexivity.
+    + unfold accepted_answer, is_answer in Ha. rewrite Hr in Ha. rewrite !Bool.andb_false_r in Ha. discriminate.
+Qed.
+
+Lemma frag_eqb_eq a b : frag_eqb a b = true <-> a = b.
+Proof.
+  unfold frag_eqb. rewrite Bool.andb_true_iff, !list_eqb_eq. destruct a, b; cbn [fst snd].
+  split; [intros [-> ->]; reflexivity|intros H; injection H; auto].
+Qed.
+
+Lemma unsol_dup_spec st h objs : unsol_dup st h objs = true <-> s_last_unsol st = Some (hdr_bytes h, objs).
+Proof.
+  unfold unsol_dup. destruct (s_last_unsol st) as [old|]; [|split; discriminate].
+  rewrite frag_eqb_eq. split; [intros ->; reflexivity|intros H; injection H; auto].
+Qed.
+
+(* duplicate_unsolicited_confirmed_not_delivered, local form: an unsolicited fragment equal
+   (header and objects) to the one recorded last is reported as a repeat and confirmed if it asks
+   for it; the handler is not called *)
+Theorem duplicate_unsolicited_local cfg st src frag v items h objs :
+  s_stopped st = false -> s_conn st = true -> parse_response frag = PResponse h objs -> h_unsol h = true ->
+  unsol_accepts cfg st src h objs v = true -> s_last_unsol st = Some (hdr_bytes h, objs) ->
+  act (snd (mstep cfg st (ERx src frag v items))) =
+  OInfoUnsol true (c_seq (h_ctrl h)) ::
+  (if c_con (h_ctrl h) then [OTxConfirm (c_addr cfg) true (c_seq (h_ctrl h))] else []).
+Proof.
+  intros Hs Hc Hp Hu Ha Hl. rewrite act_mstep by assumption. unfold rx_act. rewrite Hc, Hp, Hu. cbn [negb].
+  unfold unsol_act. rewrite Ha. apply unsol_dup_spec in Hl. rewrite Hl. reflexivity.
+Qed.
+
+Definition is_cb (o : mobs) : bool :=
+  match o with OCbBegin _ _ | OCbItem _ | OCbEnd _ _ => true | _ => false end.
+Definition cbs (l : list tobs) : list mobs := filter is_cb (map snd l).
+
+Lemma cbs_act l : cbs l = filter is_cb (act l).
+Proof.
+  unfold cbs, act. induction (map snd l) as [|o m IH]; [reflexivity|].
+  cbn [filter]. destruct (active o) eqn:Ea.
+  - cbn [filter]. rewrite IH. reflexivity.
+  - destruct o; try discriminate; cbn [is_cb]; exact IH.
+Qed.
+
+Lemma filter_cb_items items : filter is_cb (map OCbItem items) = map OCbItem items.
+Proof. induction items; cbn; [reflexivity|f_equal; auto]. Qed.
+
+(* which fragment is handed to the measurement handler, and as what *)
+Definition delivers (cfg : mcfg) (st : mstate) (ev : mevent) : option (read_type * list byte * list item) :=
+  match ev with
+  | ERx src frag v items =>
+    if negb (s_stopped st) && s_conn st then
+      match parse_response frag with
+      | PError => None
+      | PResponse h objs =>
+        if h_unsol h then
+          if unsol_accepts cfg st src h objs v && negb (unsol_dup st h objs)
+          then Some (RtUnsol, hdr_bytes h, items) else None
+        else
+          match s_run st with
+          | RRead k _ _ _ _ =>
+            if accepts_solicited cfg st src h v then Some (rd_read_type k, hdr_bytes h, items) else None
+          | _ => None
+          end
+      end
+    else None
+  | _ => None
+  end.
+
+Definition bracket (d : read_type * list byte * list item) : list mobs :=
+  let '(rt, hdr, items) := d in OCbBegin rt hdr :: map OCbItem items ++ [OCbEnd rt hdr].
+
+(* delivered_once_in_order, local form: the handler callbacks of a step are exactly one
+   begin/items/end bracket for the fragment the step accepts for delivery - the items in the order
+   of the fragment - and nothing otherwise *)
+Theorem delivered_local cfg st ev :
+  s_stopped st = false ->
+  cbs (snd (mstep cfg st ev)) = match delivers cfg st ev with Some d => bracket d | None => [] end.
+Proof.
+  intros Hs. rewrite cbs_act, act_mstep by assumption.
+  destruct ev as [src frag v items|ms|tok t| | | | | |]; try reflexivity.
+  unfold rx_act, delivers. rewrite Hs. destruct (s_conn st); cbn [negb andb]; [|reflexivity].
+  destruct (parse_response frag) as [|h objs]; [reflexivity|].
+  destruct (h_unsol h).
+  - unfold unsol_act, unsol_confirm. destruct (unsol_accepts cfg st src h objs v); cbn [andb]; [|reflexivity].
+    destruct (unsol_dup st h objs); cbn [negb].
+    + destruct (c_con (h_ctrl h)); reflexivity.
+    + cbn [bracket]. rewrite filter_app. cbn [filter is_cb]. rewrite filter_app, filter_cb_items.
+      cbn [filter is_cb]. destruct (c_con (h_ctrl h)); cbn [filter is_cb]; rewrite app_nil_r; reflexivity.
+  - unfold accepts_solicited. destruct (accepted_answer cfg st src h); cbn [andb].
+    + destruct (s_run st) as [|k seq d sd|k seq first d sd|tok d]; try reflexivity.
+      * rewrite filter_app. unfold sol_confirm.
+        assert (Hn : filter is_cb (if s_assoc st then nr_act k seq objs v else []) = []).
+        { destruct (s_assoc st); [|reflexivity]. unfold nr_act.
+          destruct k as [tok ph hs|tok|tok fc0|tok cold|a]; try reflexivity.
+          - destruct v; try reflexivity. destruct (compare hs objs); try reflexivity. destruct ph; reflexivity.
+          - destruct objs; reflexivity.
+          - destruct objs; reflexivity.
+          - destruct v; try reflexivity. destruct (restart_delay objs); reflexivity. }
+        rewrite Hn. destruct (c_con (h_ctrl h)); reflexivity.
+      * destruct (s_assoc st && _); [|reflexivity].
+        unfold rd_act, sol_confirm, bracket. rewrite !filter_app. cbn [filter is_cb].
+        rewrite filter_app, filter_cb_items. cbn [filter is_cb].
+        assert (Hn : filter is_cb
+                   (if c_fin (h_ctrl h)
+                    then match k with RDUser tok => [ORes tok ROk] | RDIntegrity => [] end ++ [OInfoSuccess (rd_type k) 1 seq]
+                    else []) = []).
+        { destruct (c_fin (h_ctrl h)); [|reflexivity]. destruct k; reflexivity. }
+        rewrite Hn. destruct (c_con (h_ctrl h)); cbn [filter is_cb]; rewrite !app_nil_r; reflexivity.
+    + destruct (s_run st); reflexivity.
+Qed.
+
+(* ---------------------------------------------------------------------------------------- *)
+(* runs *)
+
+Lemma run_from_nth cfg : forall evs st k o,
+  nth_error (run_from cfg st evs) k = Some o ->
+  exists ev, nth_error evs k = Some ev /\ o = snd (mstep cfg (final_from cfg st (firstn k evs)) ev).
+Proof.
+  induction evs as [|e evs IH]; intros st k o H; cbn [run_from] in H.
+  - destruct k; discriminate.
+  - destruct (mstep cfg st e) as [st1 o1] eqn:E. destruct k as [|k]; cbn [nth_error] in *.
+    + injection H as <-. exists e. split; [reflexivity|]. cbn [firstn final_from]. rewrite E. reflexivity.
+    + destruct (IH st1 k o H) as (ev & Hev & Ho). exists ev. split; [exact Hev|].
+      cbn [firstn final_from]. rewrite E. exact Ho.
+Qed.
+
+(* the k-th step of a run: its event, the state before it, its observations *)
+Lemma run_nth cfg evs k o :
+  nth_error (run cfg evs) (S k) = Some o ->
+  exists ev, nth_error evs k = Some ev /\ o = snd (mstep cfg (final cfg (firstn k evs)) ev).
+Proof.
+  unfold run, final. destruct (minit cfg) as [st0 o0]. cbn [nth_error fst]. apply run_from_nth.
+Qed.
+
+(* everything observed before step k *)
+Definition hist (cfg : mcfg) (evs : list mevent) (k : nat) : list tobs := concat (firstn (S k) (run cfg evs)).
+
+Lemma final_from_app cfg : forall a st b, final_from cfg st (a ++ b) = final_from cfg (final_from cfg st a) b.
+Proof. induction a as [|e a IH]; intros; cbn [app final_from]; auto. Qed.
+
+Lemma firstn_S_nth {A} (l : list A) k x : nth_error l k = Some x -> firstn (S k) l = firstn k l ++ [x].
+Proof.
+  revert k; induction l as [|y l IH]; intros [|k] H; cbn in *; try discriminate.
+  - injection H as ->. reflexivity.
+  - f_equal. apply IH. exact H.
+Qed.
+
+Lemma run_from_length cfg : forall evs st, length (run_from cfg st evs) = length evs.
+Proof. induction evs as [|e evs IH]; intros st; cbn [run_from]; [reflexivity|]. destruct (mstep cfg st e). cbn. auto. Qed.
+
+Lemma run_from_nth_some cfg : forall evs st k ev, nth_error evs k = Some ev ->
+  nth_error (run_from cfg st evs) k = Some (snd (mstep cfg (final_from cfg st (firstn k evs)) ev)).
+Proof.
+  induction evs as [|e evs IH]; intros st k ev H; [destruct k; discriminate|].
+  cbn [run_from]. destruct (mstep cfg st e) as [st1 o1] eqn:E. destruct k as [|k]; cbn [nth_error firstn final_from] in *.
+  - injection H as ->. rewrite E. reflexivity.
+  - rewrite E. cbn [fst]. apply IH. exact H.
+Qed.
+
+(* an invariant of states and histories holds along every run *)
+Lemma run_invariant cfg (Inv : mstate -> list tobs -> Prop) :
+  Inv (fst (minit cfg)) (snd (minit cfg)) ->
+  (forall st h ev, Inv st h -> Inv (fst (mstep cfg st ev)) (h ++ snd (mstep cfg st ev))) ->
+  forall evs k, (k <= length evs)%nat -> Inv (final cfg (firstn k evs)) (hist cfg evs k).
+Proof.
+  intros H0 Hstep evs k. induction k as [|k IH]; intros Hk.
+  - unfold hist, final, run. destruct (minit cfg) as [st0 o0]. cbn [firstn final_from concat fst snd] in *.
+    rewrite app_nil_r. exact H0.
+  - assert (Hlt : (k < length evs)%nat) by lia.
+    destruct (nth_error evs k) as [ev|] eqn:Hev; [|apply nth_error_None in Hev; lia].
+    specialize (IH ltac:(lia)). specialize (Hstep _ _ ev IH).
+    rewrite (firstn_S_nth _ _ _ Hev). unfold final. rewrite final_from_app. cbn [final_from].
+    fold (final cfg (firstn k evs)).
+    unfold hist.
+    assert (Hn : nth_error (run cfg evs) (S k) = Some (snd (mstep cfg (final cfg (firstn k evs)) ev))).
+    { unfold run, final. destruct (minit cfg) as [st0 o0]. cbn [nth_error fst]. apply run_from_nth_some. exact Hev. }
+    rewrite (firstn_S_nth _ _ _ Hn), concat_app. cbn [concat]. rewrite app_nil_r. exact Hstep.
+Qed.
+
+(* ---------------------------------------------------------------------------------------- *)
+(* the outstanding task and the history: which request is on the wire, how many fragments of
+   its answer have been accepted *)
+
+Record req := mk_req { rq_seq : N; rq_fc : N; rq_objs : list byte; rq_frags : nat }.
+
+Definition hstep (s : option req) (o : mobs) : option req :=
+  match o with
+  | OTxReq _ q fc objs => Some (mk_req q fc objs 0)
+  | OCbBegin RtUnsol _ => s
+  | OCbBegin _ _ =>
+    match s with Some r => Some (mk_req (rq_seq r) (rq_fc r) (rq_objs r) (S (rq_frags r))) | None => None end
+  | _ => s
+  end.
+
+(* the last request written and the number of fragments of its answer delivered since *)
+Definition last_request (h : list tobs) : option req := fold_left hstep (map snd h) None.
+
+Fixpoint seq_add (q : N) (n : nat) : N := match n with O => q | S m => seq_next (seq_add q m) end.
+
+Definition nr_objs_ok (k : nr_kind) (objs : list byte) : Prop :=
+  match k with NRCommand _ _ hs => objs = encode_phs hs | _ => True end.
+
+Definition tracks (st : mstate) (s : option req) : Prop :=
+  match s_run st with
+  | RNonRead k q _ _ =>
+    (exists objs, s = Some (mk_req q (nr_fc k) objs 0) /\ nr_objs_ok k objs) /\ s_seq st = seq_next q
+  | RRead k q first _ _ =>
+    (exists r objs n, s = Some (mk_req r 1 objs n) /\ q = seq_add r n /\ first = (n =? 0)%nat)
+    /\ s_seq st = seq_next q
+  | _ => True
+  end.
+
+Definition neutral (o : mobs) : bool :=
+  match o with
+  | OTxReq _ _ _ _ => false
+  | OCbBegin RtUnsol _ => true
+  | OCbBegin _ _ => false
+  | _ => true
+  end.
+Definition neutrals (l : list tobs) : Prop := Forall (fun p => neutral (snd p) = true) l.
+
+Definition hfold (l : list tobs) (s : option req) : option req := fold_left hstep (map snd l) s.
+
+Lemma hfold_app a b s : hfold (a ++ b) s = hfold b (hfold a s).
+Proof. unfold hfold. rewrite map_app, fold_left_app. reflexivity. Qed.
+Lemma hfold_nil s : hfold [] s = s. Proof. reflexivity. Qed.
+Lemma hfold_emit st o s : hfold (emit st o) s = hstep s o.
+Proof. Transparent emit. reflexivity. Qed.
+#[local] Opaque emit.
+Lemma hfold_neutrals l s : neutrals l -> hfold l s = s.
+Proof.
+  unfold hfold, neutrals. revert s; induction l as [|[t o] l IH]; intros s H; [reflexivity|].
+  inversion H as [|? ? Ho Hl]; subst. cbn [map snd fold_left] in *.
+  rewrite IH by assumption. destruct o; try reflexivity; try discriminate. destruct rt; try discriminate; reflexivity.
+Qed.
+Lemma neutrals_nil : neutrals []. Proof. constructor. Qed.
+Lemma neutrals_app a b : neutrals a -> neutrals b -> neutrals (a ++ b).
+Proof. unfold neutrals. intros. apply Forall_app. auto. Qed.
+Lemma neutrals_emit st o : neutral o = true -> neutrals (emit st o).
+Proof. Transparent emit. intros H. constructor; [exact H|constructor]. Qed.
+#[local] Opaque emit.
+Lemma neutrals_flat_map {A} (f : A -> list tobs) l : (forall x, neutrals (f x)) -> neutrals (flat_map f l).
+Proof. intros H. induction l; cbn [flat_map]; [constructor|apply neutrals_app; auto]. Qed.
+
+Ltac neu := repeat first [apply neutrals_nil | apply neutrals_app | apply neutrals_emit; reflexivity].
+
+(* primitives that leave the outstanding task and the sequence number alone and write nothing
+   that counts *)
+Definition keeps (st st' : mstate) : Prop := s_run st' = s_run st /\ s_seq st' = s_seq st.
+
+Lemma tracks_keeps st st' o s : keeps st st' -> neutrals o -> tracks st s -> tracks st' (hfold o s).
+Proof.
+  intros [Hr Hq] Hn Ht. rewrite hfold_neutrals by assumption. unfold tracks in *. rewrite Hr, Hq. exact Ht.
+Qed.
+
+Lemma tracks_idle st s : (s_run st = RNone \/ exists tok d, s_run st = RLink tok d) -> tracks st s.
+Proof. unfold tracks. intros [->|(tok & d & ->)]; exact I. Qed.
+
+Lemma keeps_refl st : keeps st st. Proof. split; reflexivity. Qed.
+Lemma keeps_trans a b c : keeps a b -> keeps b c -> keeps a c.
+Proof. unfold keeps. intros [H1 H2] [H3 H4]. split; congruence. Qed.
+
+Lemma failure_any cfg now a : exists l n, failure cfg now a = AFailed l n.
+Proof. unfold failure. eauto. Qed.
+
+Lemma nr_error_keeps cfg st k e st' o : nr_error cfg st k e = (st', o) -> keeps st st' /\ neutrals o.
+Proof.
+  unfold nr_error. destruct k as [tok ph hs|tok|tok fc|tok cold|a]; intros H;
+    try (injection H as <- <-; split; [apply keeps_refl|neu]).
+  destruct (s_assoc st).
+  - destruct e; injection H as <- <-; (split; [|neu]);
+      unfold auto_failure, auto_response; destruct a; try destruct (iin1_restart _); split; reflexivity.
+  - injection H as <- <-; split; [apply keeps_refl|neu].
+Qed.
+
+Lemma rd_error_keeps cfg st k e st' o : rd_error cfg st k e = (st', o) -> keeps st st' /\ neutrals o.
+Proof.
+  unfold rd_error. destruct k as [tok|]; intros H; [injection H as <- <-; split; [apply keeps_refl|neu]|].
+  destruct (s_assoc st); injection H as <- <-; (split; [split; reflexivity|neu]).
+Qed.
+
+Lemma notify_fail_neutrals st ty e : neutrals (notify_fail st ty e).
+Proof. unfold notify_fail. destruct (s_assoc st); neu. Qed.
+
+(* a task that ends *)
+Lemma fail_running_idle cfg st e st' o :
+  fail_running cfg st e = (st', o) -> s_run st' = RNone /\ neutrals o.
+Proof.
+  unfold fail_running. destruct (s_run st) as [|k seq d sd|k seq f d sd|tok d] eqn:Hr; intros H.
+  - injection H as <- <-. split; [exact Hr|neu].
+  - destruct (nr_error cfg st k e) as [st1 o1] eqn:E. injection H as <- <-.
+    split; [reflexivity|]. apply neutrals_app; [eapply nr_error_keeps; eauto|apply notify_fail_neutrals].
+  - destruct (rd_error cfg st k e) as [st1 o1] eqn:E. injection H as <- <-.
+    split; [reflexivity|]. apply neutrals_app; [eapply rd_error_keeps; eauto|apply notify_fail_neutrals].
+  - injection H as <- <-. split; [reflexivity|neu].
+Qed.
+
+Lemma send_nonread_tracks cfg st k objs sd st' o s :
+  nr_objs_ok k objs -> send_nonread cfg st k objs sd = (st', o) -> tracks st' (hfold o s).
+Proof.
+  unfold send_nonread. intros Hk. destruct (fits cfg objs); intros H.
+  - injection H as <- <-. rewrite hfold_emit. unfold tracks. cbn [s_run set_run set_seq s_seq hstep].
+    split; [exists objs; split; [reflexivity|exact Hk]|reflexivity].
+  - destruct (nr_error _ _ _ _) as [st2 o2]. injection H as <- <-. apply tracks_idle. left. reflexivity.
+Qed.
+
+Lemma start_nonread_tracks cfg st k objs st' o s :
+  nr_objs_ok k objs -> start_nonread cfg st k objs = (st', o) -> tracks st' (hfold o s).
+Proof.
+  unfold start_nonread. intros Hk. destruct (send_nonread _ _ _ _ _) as [st1 o1] eqn:E. intros H.
+  injection H as <- <-. rewrite hfold_app, hfold_emit. cbn [hstep]. eapply send_nonread_tracks; eauto.
+Qed.
+
+Lemma start_read_tracks cfg st k objs st' o s : start_read cfg st k objs = (st', o) -> tracks st' (hfold o s).
+Proof.
+  unfold start_read. destruct (fits cfg objs); intros H.
+  - injection H as <- <-. rewrite hfold_app, !hfold_emit. unfold tracks. cbn [s_run set_run set_seq s_seq hstep].
+    split; [|reflexivity]. exists (s_seq st), objs, 0%nat. repeat split.
+  - destruct (rd_error _ _ _ _) as [st2 o2]. injection H as <- <-. apply tracks_idle. left. reflexivity.
+Qed.
+
+Lemma start_user_tracks cfg st tok t st' o s : start_user cfg st tok t = (st', o) -> tracks st' (hfold o s).
+Proof.
+  unfold start_user. destruct t; intros H.
+  - eapply start_read_tracks; eauto.
+  - eapply start_nonread_tracks; [|eauto]. reflexivity.
+  - eapply start_nonread_tracks; [|eauto]. exact I.
+  - eapply start_nonread_tracks; [|eauto]. exact I.
+  - eapply start_nonread_tracks; [|eauto]. exact I.
+  - injection H as <- <-. apply tracks_idle. right. cbn [s_run set_run]. eauto.
+Qed.
+
+Lemma pump_tracks fuel cfg : forall st st' o s, tracks st s -> pump fuel cfg st = (st', o) -> tracks st' (hfold o s).
+Proof.
+  induction fuel as [|f IH]; intros st st' o s Ht H; cbn [pump] in H.
+  - injection H as <- <-. exact Ht.
+  - destruct (negb (s_conn st)); [injection H as <- <-; exact Ht|].
+    destruct (s_run st) eqn:Hr; try (injection H as <- <-; exact Ht).
+    destruct (next_task cfg st) as [|t|tok t|a|].
+    + injection H as <- <-. exact Ht.
+    + injection H as <- <-. exact Ht.
+    + destruct (start_user _ _ _ _) as [st1 o1] eqn:E1. destruct (pump f cfg st1) as [st2 o2] eqn:E2.
+      injection H as <- <-. rewrite hfold_app. eapply IH; [|exact E2]. eapply start_user_tracks; eauto.
+    + destruct (start_nonread _ _ _ _) as [st1 o1] eqn:E1. destruct (pump f cfg st1) as [st2 o2] eqn:E2.
+      injection H as <- <-. rewrite hfold_app. eapply IH; [|exact E2]. eapply start_nonread_tracks; [|eauto]. exact I.
+    + destruct (start_read _ _ _ _) as [st1 o1] eqn:E1. destruct (pump f cfg st1) as [st2 o2] eqn:E2.
+      injection H as <- <-. rewrite hfold_app. eapply IH; [|exact E2]. eapply start_read_tracks; eauto.
+Qed.
+
+Lemma then_pump_tracks cfg st1 o1 st' o s :
+  tracks st1 (hfold o1 s) -> then_pump cfg (st1, o1) = (st', o) -> tracks st' (hfold o s).
+Proof.
+  unfold then_pump, run_pump. destruct (pump _ cfg st1) as [st2 o2] eqn:E. intros Ht H. injection H as <- <-.
+  rewrite hfold_app. eapply pump_tracks; eauto.
+Qed.
+
+Lemma neutrals_deliver_unsol st h items : neutrals (deliver st RtUnsol h items).
+Proof. unfold deliver. apply neutrals_app; [neu|]. apply neutrals_app; [|neu]. apply neutrals_flat_map. intros; neu. Qed.
+
+Lemma hfold_deliver st rt h items s : hfold (deliver st rt h items) s = hstep s (OCbBegin rt (hdr_bytes h)).
+Proof.
+  unfold deliver. rewrite !hfold_app, !hfold_emit. cbn [hstep].
+  apply hfold_neutrals. apply neutrals_flat_map. intros; neu.
+Qed.
+
+Lemma process_iin_keeps st i : keeps st (process_iin st i).
+Proof. unfold process_iin. destruct (iin1_restart i); [destruct (s_clear st)|]; split; reflexivity. Qed.
+
+Lemma handle_unsol_keeps cfg st src h objs v items st' o :
+  handle_unsol cfg st src h objs v items = (st', o) -> keeps st st' /\ neutrals o.
+Proof.
+  unfold handle_unsol. destruct (_ && s_assoc st); [|intros H; injection H as <- <-; split; [apply keeps_refl|neu]].
+  destruct (_ || _); [|intros H; injection H as <- <-; split; [apply process_iin_keeps|neu]].
+  destruct v; try (intros H; injection H as <- <-; split; [apply process_iin_keeps|neu]).
+  destruct (match s_last_unsol _ with Some _ => _ | None => _ end); intros H; injection H as <- <-.
+  - split; [eapply keeps_trans; [apply process_iin_keeps|split; reflexivity]|].
+    apply neutrals_app; [neu|]. destruct (c_con _); neu.
+  - split; [eapply keeps_trans; [apply process_iin_keeps|split; reflexivity]|].
+    apply neutrals_app; [apply neutrals_deliver_unsol|]. apply neutrals_app; [neu|]. destruct (c_con _); neu.
+Qed.
+
+Lemma handle_nonread_response_tracks cfg st k seq sd h objs v st' o s :
+  handle_nonread_response cfg st k seq sd h objs v = (st', o) -> tracks st' (hfold o s).
+Proof.
+  unfold handle_nonread_response, nr_success, nr_failed.
+  destruct k as [tok ph hs|tok|tok fc|tok cold|a].
+  - destruct v; try (intros H; injection H as <- <-; apply tracks_idle; left; reflexivity).
+    destruct (compare hs objs); [|intros H; injection H as <- <-; apply tracks_idle; left; reflexivity].
+    destruct ph; try (intros H; injection H as <- <-; apply tracks_idle; left; reflexivity).
+    intros H. eapply send_nonread_tracks; [|eauto]. reflexivity.
+  - destruct objs; intros H; injection H as <- <-; apply tracks_idle; left; reflexivity.
+  - destruct objs; intros H; injection H as <- <-; apply tracks_idle; left; reflexivity.
+  - destruct v; try (intros H; injection H as <- <-; apply tracks_idle; left; reflexivity).
+    destruct (restart_delay objs); intros H; injection H as <- <-; apply tracks_idle; left; reflexivity.
+  - intros H; injection H as <- <-; apply tracks_idle; left; reflexivity.
+Qed.
+
+Lemma fail_running_tracks cfg st e st' o s : fail_running cfg st e = (st', o) -> tracks st' (hfold o s).
+Proof. intros H. apply tracks_idle. left. eapply fail_running_idle; eauto. Qed.
+
+Lemma on_nonread_rx_tracks cfg st k seq d sd src h objs v items st' o s :
+  tracks st s -> on_nonread_rx cfg st k seq d sd src h objs v items = (st', o) -> tracks st' (hfold o s).
+Proof.
+  intros Ht. unfold on_nonread_rx.
+  destruct (h_unsol h).
+  { intros H. destruct (handle_unsol_keeps _ _ _ _ _ _ _ _ _ H). eapply tracks_keeps; eauto. }
+  destruct (negb (src =? c_addr cfg)); [intros H; injection H as <- <-; exact Ht|].
+  destruct (negb (c_seq (h_ctrl h) =? seq)); [intros H; injection H as <- <-; exact Ht|].
+  destruct (negb (c_fir (h_ctrl h) && c_fin (h_ctrl h))); [apply fail_running_tracks|].
+  destruct (iin2_bad (h_iin2 h)); [apply fail_running_tracks|].
+  destruct (s_assoc st).
+  - destruct (handle_nonread_response _ _ _ _ _ _ _ _) as [st1 o1] eqn:E. intros H. injection H as <- <-.
+    rewrite hfold_app. eapply handle_nonread_response_tracks; eauto.
+  - destruct (nr_error _ _ _ _) as [st1 o1]. intros H. injection H as <- <-. apply tracks_idle. left. reflexivity.
+Qed.
+
+Lemma on_read_rx_tracks cfg st k seq first d sd src h objs v items st' o s :
+  s_run st = RRead k seq first d sd ->
+  tracks st s -> on_read_rx cfg st k seq first d sd src h objs v items = (st', o) -> tracks st' (hfold o s).
+Proof.
+  intros Hr Ht. unfold on_read_rx.
+  destruct (h_unsol h).
+  { intros H. destruct (handle_unsol_keeps _ _ _ _ _ _ _ _ _ H). eapply tracks_keeps; eauto. }
+  destruct (negb (src =? c_addr cfg)); [intros H; injection H as <- <-; exact Ht|].
+  destruct (negb (c_seq (h_ctrl h) =? seq)); [intros H; injection H as <- <-; exact Ht|].
+  destruct (c_fir (h_ctrl h) && negb first); [apply fail_running_tracks|].
+  destruct (negb (c_fir (h_ctrl h)) && first); [apply fail_running_tracks|].
+  destruct (negb (c_fin (h_ctrl h)) && negb (c_con (h_ctrl h))); [apply fail_running_tracks|].
+  destruct (iin2_bad (h_iin2 h)); [apply fail_running_tracks|].
+  destruct (negb (s_assoc st)); [apply fail_running_tracks|].
+  destruct v; try apply fail_running_tracks.
+  destruct (c_fin (h_ctrl h)).
+  - destruct k as [tok|]; intros H; injection H as <- <-; apply tracks_idle; left; reflexivity.
+  - intros H. injection H as <- <-.
+    unfold tracks in Ht. rewrite Hr in Ht. destruct Ht as [(r & ro & n & -> & -> & ->) Hq].
+    rewrite hfold_app, hfold_deliver.
+    assert (Hc : forall x, hfold (if c_con (h_ctrl h) then emit st (OTxConfirm (c_addr cfg) false (seq_add r n)) else []) x = x).
+    { intros x. destruct (c_con (h_ctrl h)); [rewrite hfold_emit|]; reflexivity. }
+    rewrite Hc. destruct (process_iin_keeps st (h_iin1 h)) as [_ Hs].
+    unfold tracks. cbn [s_run set_run set_seq s_seq]. rewrite Hs, Hq.
+    split; [|reflexivity]. exists r, ro, (S n).
+    destruct k; cbn [rd_read_type hstep rq_seq rq_fc rq_objs rq_frags seq_add]; repeat split.
+Qed.
+
+Lemma on_rx_tracks cfg st src frag v items st' o s :
+  tracks st s -> on_rx cfg st src frag v items = (st', o) -> tracks st' (hfold o s).
+Proof.
+  intros Ht. unfold on_rx.
+  destruct (negb (s_conn st)); [intros H; injection H as <- <-; rewrite hfold_emit; exact Ht|].
+  destruct (parse_response frag) as [|h objs].
+  - destruct (s_run st) eqn:Hr; try apply fail_running_tracks. intros H; injection H as <- <-; exact Ht.
+  - destruct (s_run st) as [|k seq d sd|k seq first d sd|tok d] eqn:Hr.
+    + destruct (h_unsol h); [|intros H; injection H as <- <-; exact Ht].
+      intros H. destruct (handle_unsol_keeps _ _ _ _ _ _ _ _ _ H). eapply tracks_keeps; eauto.
+    + apply on_nonread_rx_tracks. exact Ht.
+    + apply on_read_rx_tracks; assumption.
+    + destruct (if h_unsol h then _ else _) as [st1 o1]. destruct (fail_running cfg st1 EBadHeaders) as [st2 o2] eqn:E.
+      intros H. injection H as <- <-. apply tracks_idle. left. eapply fail_running_idle; eauto.
+Qed.
+
+Lemma stop_run_idle cfg st why st' o : stop_run cfg st why = (st', o) -> s_run st' = RNone.
+Proof.
+  unfold stop_run. destruct (fail_running _ _ _) as [st1 o1] eqn:E1. apply fail_running_idle in E1. destruct E1 as [E1 _].
+  destruct (s_assoc st1).
+  - unfold reset_assoc. intros H. injection H as <- _. exact E1.
+  - intros H. injection H as <- _. exact E1.
+Qed.
+
+Lemma on_event_tracks cfg st ev st' o s : tracks st s -> on_event cfg st ev = (st', o) -> tracks st' (hfold o s).
+Proof.
+  intros Ht. destruct ev as [src frag v items|ms|tok t| | | | | |]; cbn [on_event].
+  - destruct (on_rx _ _ _ _ _ _) as [st1 o1] eqn:E. intros H. injection H as <- <-.
+    rewrite hfold_app, hfold_emit. cbn [hstep]. eapply on_rx_tracks; eauto.
+  - intros H. injection H as <- <-. exact Ht.
+  - unfold on_user. destruct (negb (s_assoc st)); [intros H; injection H as <- <-; rewrite hfold_emit; exact Ht|].
+    destruct (negb (s_conn st)); [intros H; injection H as <- <-; rewrite hfold_emit; exact Ht|].
+    destruct (_ <? _)%nat; intros H; injection H as <- <-; [exact Ht|rewrite hfold_emit; exact Ht].
+  - destruct (s_conn st); [|intros H; injection H as <- <-; exact Ht].
+    intros H. apply tracks_idle. left. eapply stop_run_idle; eauto.
+  - destruct (s_conn st); [intros H; injection H as <- <-; exact Ht|].
+    unfold try_connect. destruct (_ && _); intros H; injection H as <- <-; [rewrite hfold_emit|]; exact Ht.
+  - destruct (s_conn st); [|intros H; injection H as <- <-; exact Ht].
+    intros H. apply tracks_idle. left. eapply stop_run_idle; eauto.
+  - unfold try_connect. destruct (_ && _); intros H; injection H as <- <-; [rewrite hfold_emit|]; exact Ht.
+  - intros H. injection H as <- <-. rewrite hfold_neutrals; [exact Ht|]. apply neutrals_flat_map. intros; neu.
+  - destruct (s_conn st).
+    + destruct (stop_run cfg st StShutdown) as [st1 o1] eqn:E. intros H. injection H as <- <-.
+      apply tracks_idle. left. cbn [s_run set_chan]. eapply stop_run_idle; eauto.
+    + intros H. injection H as <- <-. rewrite ?hfold_app, ?hfold_nil, hfold_emit. exact Ht.
+Qed.
+
+Lemma fire_tracks cfg st st' o s : tracks st s -> fire cfg st = (st', o) -> tracks st' (hfold o s).
+Proof.
+  intros Ht. unfold fire. destruct (s_run st) eqn:Hr.
+  - apply pump_tracks. exact Ht.
+  - destruct (fail_running cfg st ETimeout) as [st1 o1] eqn:E. apply then_pump_tracks. eapply fail_running_tracks; eauto.
+  - destruct (fail_running cfg st ETimeout) as [st1 o1] eqn:E. apply then_pump_tracks. eapply fail_running_tracks; eauto.
+  - destruct (fail_running cfg st ETimeout) as [st1 o1] eqn:E. apply then_pump_tracks. eapply fail_running_tracks; eauto.
+Qed.
+
+Lemma tracks_set_now st t s : tracks st s -> tracks (set_now st t) s.
+Proof. exact (fun H => H). Qed.
+
+Lemma advance_tracks fuel cfg : forall st target st' o s,
+  tracks st s -> advance fuel cfg st target = (st', o) -> tracks st' (hfold o s).
+Proof.
+  induction fuel as [|f IH]; intros st target st' o s Ht H; cbn [advance] in H.
+  - injection H as <- <-. exact Ht.
+  - destruct (wake_time cfg st) as [d|]; [|injection H as <- <-; exact Ht].
+    destruct (d <=? target); [|injection H as <- <-; exact Ht].
+    destruct (fire _ _) as [st1 o1] eqn:E1. destruct (advance f cfg st1 target) as [st2 o2] eqn:E2.
+    injection H as <- <-. rewrite hfold_app. eapply IH; [|exact E2]. eapply fire_tracks; [|exact E1].
+    apply tracks_set_now. exact Ht.
+Qed.
+
+Lemma mstep_tracks cfg st ev s : tracks st s -> tracks (fst (mstep cfg st ev)) (hfold (snd (mstep cfg st ev)) s).
+Proof.
+  intros Ht. unfold mstep. destruct (s_stopped st); [cbn [fst snd]; rewrite hfold_app, !hfold_emit; exact Ht|].
+  destruct (on_event cfg st ev) as [st0 o0] eqn:E0.
+  destruct (then_pump cfg (st0, o0)) as [st1 o1] eqn:E1.
+  destruct (advance _ cfg st1 _) as [st2 o2] eqn:E2. cbn [fst snd].
+  rewrite !hfold_app, hfold_emit. cbn [hstep]. eapply advance_tracks; [|exact E2].
+  eapply then_pump_tracks; [|exact E1]. eapply on_event_tracks; eauto.
+Qed.
+
+Lemma last_request_app a b : last_request (a ++ b) = hfold b (last_request a).
+Proof. unfold last_request, hfold. rewrite map_app, fold_left_app. reflexivity. Qed.
+
+(* along every run the outstanding task is the last request written, advanced by the fragments
+   delivered since *)
+Theorem run_tracks cfg evs k :
+  (k <= length evs)%nat -> tracks (final cfg (firstn k evs)) (last_request (hist cfg evs k)).
+Proof.
+  apply (run_invariant cfg (fun st h => tracks st (last_request h))).
+  - unfold minit. destruct (run_pump cfg _) as [st1 o1] eqn:E1. destruct (advance 2 cfg st1 1) as [st2 o2] eqn:E2.
+    cbn [fst snd]. change (last_request ?l) with (hfold l None). rewrite !hfold_app, hfold_emit. cbn [hstep].
+    eapply advance_tracks; [|exact E2]. eapply pump_tracks; [|exact E1]. exact I.
+  - intros st h ev Ht. rewrite last_request_app. apply mstep_tracks. exact Ht.
+Qed.
+
+Lemma nth_error_le {A} (l : list A) k x : nth_error l k = Some x -> (k <= length l)%nat.
+Proof. intros H. assert (k < length l)%nat by (apply nth_error_Some; congruence). lia. Qed.
+
+Lemma accepted_answer_inv cfg st src h :
+  accepted_answer cfg st src h = true ->
+  src = c_addr cfg /\ iin2_bad (h_iin2 h) = false /\
+  ((exists k q d sd, s_run st = RNonRead k q d sd /\ c_seq (h_ctrl h) = q /\
+                     c_fir (h_ctrl h) = true /\ c_fin (h_ctrl h) = true) \/
+   (exists k q f d sd, s_run st = RRead k q f d sd /\ c_seq (h_ctrl h) = q /\ c_fir (h_ctrl h) = f /\
+                       (c_fin (h_ctrl h) = true \/ c_con (h_ctrl h) = true))).
+Proof.
+  unfold accepted_answer, is_answer, flags_ok. intros H.
+  apply Bool.andb_true_iff in H. destruct H as [H Hi]. apply Bool.andb_true_iff in H. destruct H as [H Hf].
+  apply Bool.andb_true_iff in H. destruct H as [Hs Hq]. apply N.eqb_eq in Hs. apply Bool.negb_true_iff in Hi.
+  split; [exact Hs|]. split; [exact Hi|].
+  destruct (s_run st) as [|k q d sd|k q f d sd|tok d]; try discriminate; apply N.eqb_eq in Hq.
+  - left. apply Bool.andb_true_iff in Hf. exists k, q, d, sd. tauto.
+  - right. apply Bool.andb_true_iff in Hf. destruct Hf as [Hf1 Hf2]. apply Bool.eqb_prop in Hf1.
+    apply Bool.orb_true_iff in Hf2. exists k, q, f, d, sd. tauto.
+Qed.
+
+Lemma stopped_no_obs cfg st ev o : s_stopped st = true -> In o (map snd (snd (mstep cfg st ev))) -> o = OStep \/ o = OIgnored.
+Proof.
+  intros Hs. rewrite mstep_stopped by assumption. cbn. intros [H|[H|[]]]; auto.
+Qed.
+
+(* C15.1 completion_needs_matching_response.  A task reports success only in a step that receives
+   a solicited response from the addressed outstation; the response carries the sequence number
+   of the LAST REQUEST WRITTEN advanced by the number of fragments of its answer delivered since
+   (so the fragments of a multi-fragment answer carry consecutive numbers), has FIR exactly when it
+   is the first fragment of the answer, has FIN, carries no IIN2 rejection; for every request but
+   a READ it is the only fragment (FIR and FIN). *)
+Theorem completion_needs_matching_response : forall cfg evs k o ty fc s,
+  nth_error (run cfg evs) (S k) = Some o ->
+  In (OInfoSuccess ty fc s) (map snd o) ->
+  exists src frag v items h objs r,
+    nth_error evs k = Some (ERx src frag v items) /\ parse_response frag = PResponse h objs /\
+    h_unsol h = false /\ src = c_addr cfg /\ c_seq (h_ctrl h) = s /\ c_fin (h_ctrl h) = true /\
+    iin2_bad (h_iin2 h) = false /\
+    last_request (hist cfg evs k) = Some r /\
+    s = seq_add (rq_seq r) (rq_frags r) /\ c_fir (h_ctrl h) = (rq_frags r =? 0)%nat /\
+    (rq_fc r <> 1 -> rq_frags r = 0%nat).
+Proof.
+  intros cfg evs k o ty fc s Hn Hin.
+  destruct (run_nth _ _ _ _ Hn) as (ev & Hev & ->).
+  set (st := final cfg (firstn k evs)) in *.
+  destruct (s_stopped st) eqn:Hs.
+  { apply stopped_no_obs in Hin; [|exact Hs]. destruct Hin; discriminate. }
+  destruct (success_local _ _ _ _ _ _ Hs Hin) as (src & frag & v & items & h & objs & -> & Hc & Hp & Hu & Ha & Hfin & Hq).
+  pose proof (run_tracks cfg evs k (nth_error_le _ _ _ Hev)) as Ht. fold st in Ht.
+  destruct (accepted_answer_inv _ _ _ _ Ha) as (Hsrc & Hi & Hcase).
+  exists src, frag, v, items, h, objs.
+  unfold tracks in Ht.
+  destruct Hcase as [(kk & q & d & sd & Hr & Hq' & Hfir & _)|(kk & q & f & d & sd & Hr & Hq' & Hfir & _)];
+    rewrite Hr in Ht.
+  - destruct Ht as [(ro & Hl & _) _]. exists (mk_req q (nr_fc kk) ro 0).
+    cbn [rq_seq rq_frags rq_fc seq_add Nat.eqb]. repeat split; try assumption; congruence.
+  - destruct Ht as [(r & ro & n & Hl & Hqq & Hff) _]. exists (mk_req r 1 ro n).
+    cbn [rq_seq rq_frags rq_fc]. repeat split; try assumption; try congruence.
+Qed.
+
+(* ---------------------------------------------------------------------------------------- *)
+(* C15 along runs *)
+
+Definition state_at (cfg : mcfg) (evs : list mevent) (k : nat) : mstate := final cfg (firstn k evs).
+
+Lemma act_stopped cfg st ev : s_stopped st = true -> act (snd (mstep cfg st ev)) = [].
+Proof. intros Hs. rewrite mstep_stopped by assumption. reflexivity. Qed.
+
+Lemma accepts_stopped cfg st ev : s_stopped st = true -> accepts cfg st ev = false.
+Proof. intros Hs. destruct ev; try reflexivity. unfold accepts. rewrite Hs. reflexivity. Qed.
+
+(* what "the answer to its question" means in terms of the history: the last request written
+   and the fragments of its answer delivered so far *)
+Definition answers (r : req) (h : rhdr) : Prop :=
+  c_seq (h_ctrl h) = seq_add (rq_seq r) (rq_frags r) /\
+  c_fir (h_ctrl h) = (rq_frags r =? 0)%nat /\
+  (c_fin (h_ctrl h) = true \/ c_con (h_ctrl h) = true) /\
+  (rq_fc r <> 1 -> rq_frags r = 0%nat /\ c_fin (h_ctrl h) = true).
+
+Lemma accepted_answers cfg evs k src h :
+  (k <= length evs)%nat -> accepted_answer cfg (state_at cfg evs k) src h = true ->
+  src = c_addr cfg /\ iin2_bad (h_iin2 h) = false /\
+  exists r, last_request (hist cfg evs k) = Some r /\ answers r h.
+Proof.
+  intros Hk Ha. pose proof (run_tracks cfg evs k Hk) as Ht. fold (state_at cfg evs k) in Ht.
+  destruct (accepted_answer_inv _ _ _ _ Ha) as (Hsrc & Hi & Hcase). split; [exact Hsrc|]. split; [exact Hi|].
+  unfold tracks in Ht.
+  destruct Hcase as [(kk & q & d & sd & Hr & Hq & Hfir & Hfin)|(kk & q & f & d & sd & Hr & Hq & Hfir & Hfc)];
+    rewrite Hr in Ht.
+  - destruct Ht as [(ro & Hl & _) _]. exists (mk_req q (nr_fc kk) ro 0). split; [exact Hl|].
+    unfold answers. cbn [rq_seq rq_frags rq_fc seq_add Nat.eqb]. repeat split; auto.
+  - destruct Ht as [(r & ro & n & Hl & Hqq & Hff) _]. exists (mk_req r 1 ro n). split; [exact Hl|].
+    unfold answers. cbn [rq_seq rq_frags rq_fc]. repeat split; try congruence; try assumption;
+      intros Hne; exfalso; apply Hne; reflexivity.
+Qed.
+
+(* C15.2 reject_is_inert.  A received fragment that is not an unsolicited response and is not the
+   answer to the last request written - unparsable header, foreign source address, sequence
+   number other than the one the history determines, FIR/FIN/CON wrong for its position, IIN2
+   rejection - completes nothing, reaches no handler and is not confirmed: the step has no active
+   observation at all. *)
+Theorem reject_is_inert : forall cfg evs k o src frag v items,
+  nth_error (run cfg evs) (S k) = Some o -> nth_error evs k = Some (ERx src frag v items) ->
+  (parse_response frag = PError \/
+   exists h objs, parse_response frag = PResponse h objs /\ h_unsol h = false /\
+     ~ (src = c_addr cfg /\ iin2_bad (h_iin2 h) = false /\
+        exists r, last_request (hist cfg evs k) = Some r /\ answers r h)) ->
+  act o = [].
+Proof.
+  intros cfg evs k o src frag v items Hn Hev Hbad.
+  destruct (run_nth _ _ _ _ Hn) as (ev & Hev' & ->). rewrite Hev in Hev'. injection Hev' as <-.
+  fold (state_at cfg evs k).
+  destruct (s_stopped (state_at cfg evs k)) eqn:Hs; [apply act_stopped; exact Hs|].
+  apply reject_is_inert_local; [exact Hs|].
+  unfold accepts. rewrite Hs. cbn [negb andb].
+  destruct (s_conn (state_at cfg evs k)); [|reflexivity]. cbn [andb].
+  destruct Hbad as [->|(h & objs & -> & Hu & Hnot)]; [reflexivity|]. rewrite Hu.
+  unfold accepts_solicited.
+  destruct (accepted_answer cfg (state_at cfg evs k) src h) eqn:Ha; [|reflexivity].
+  exfalso. apply Hnot. eapply accepted_answers; [eapply nth_error_le; eauto|exact Ha].
+Qed.
+
+(* the unsolicited side of "rejected": gated by the start-up sequence, from another address,
+   without association or with malformed objects *)
+Theorem rejected_unsolicited_is_inert : forall cfg evs k o src frag v items h objs,
+  nth_error (run cfg evs) (S k) = Some o -> nth_error evs k = Some (ERx src frag v items) ->
+  parse_response frag = PResponse h objs -> h_unsol h = true ->
+  unsol_accepts cfg (state_at cfg evs k) src h objs v = false -> act o = [].
+Proof.
+  intros cfg evs k o src frag v items h objs Hn Hev Hp Hu Hna.
+  destruct (run_nth _ _ _ _ Hn) as (ev & Hev' & ->). rewrite Hev in Hev'. injection Hev' as <-.
+  fold (state_at cfg evs k).
+  destruct (s_stopped (state_at cfg evs k)) eqn:Hs; [apply act_stopped; exact Hs|].
+  apply reject_is_inert_local; [exact Hs|]. unfold accepts. rewrite Hp, Hu, Hna, Bool.andb_false_r. reflexivity.
+Qed.
+
+Lemma confirms_stopped cfg st ev : s_stopped st = true -> confirms (snd (mstep cfg st ev)) = [].
+Proof. intros Hs. rewrite mstep_stopped by assumption. reflexivity. Qed.
+
+(* C15.3 confirm_exactly_once.  In every step of every run the CONFIRMs written are: exactly one
+   - to the outstation of the association, carrying the fragment's sequence number and the UNS bit
+   iff the fragment is unsolicited - when the step accepts a fragment whose CON bit is set (for
+   every kind of task, READ or not, since fix 86bdefd), and none otherwise; before the first step
+   none. *)
+Theorem confirm_exactly_once : forall cfg evs,
+  confirms (nth 0 (run cfg evs) []) = [] /\
+  forall k o ev, nth_error (run cfg evs) (S k) = Some o -> nth_error evs k = Some ev ->
+    confirms o =
+    if accepts cfg (state_at cfg evs k) ev && frag_con ev then
+      match ev with
+      | ERx _ frag _ _ =>
+        match parse_response frag with
+        | PResponse h _ => [OTxConfirm (c_addr cfg) (h_unsol h) (c_seq (h_ctrl h))]
+        | PError => []
+        end
+      | _ => []
+      end
+    else [].
+Proof.
+  intros cfg evs. split.
+  - unfold run, minit. destruct (run_pump cfg _) as [st1 o1] eqn:E1. destruct (advance 2 cfg st1 1) as [st2 o2] eqn:E2.
+    cbn [nth]. rewrite confirms_act, act_app, act_emit, act_app. cbn [active app].
+    rewrite (act_passive o1), (act_passive o2); [reflexivity| |].
+    + eapply advance_passive; eauto.
+    + eapply run_pump_passive; eauto.
+  - intros k o ev Hn Hev. destruct (run_nth _ _ _ _ Hn) as (ev' & Hev' & ->). rewrite Hev in Hev'. injection Hev' as <-.
+    fold (state_at cfg evs k).
+    destruct (s_stopped (state_at cfg evs k)) eqn:Hs.
+    + rewrite confirms_stopped, accepts_stopped by assumption. reflexivity.
+    + apply confirm_exactly_once_local. exact Hs.
+Qed.
+
+(* ---------------------------------------------------------------------------------------- *)
+(* the record of the last unsolicited fragment changes only when an unsolicited fragment is
+   accepted (set) or the session ends (cleared) *)
+
+Lemma nr_error_lu cfg st k e st' o : nr_error cfg st k e = (st', o) -> s_last_unsol st' = s_last_unsol st.
+Proof.
+  unfold nr_error. destruct k as [tok ph hs|tok|tok fc|tok cold|a]; intros H; try (injection H as <- _; reflexivity).
+  destruct (s_assoc st); [|injection H as <- _; reflexivity].
+  destruct e; injection H as <- _; unfold auto_failure, auto_response; destruct a; try destruct (iin1_restart _); reflexivity.
+Qed.
+
+Lemma rd_error_lu cfg st k e st' o : rd_error cfg st k e = (st', o) -> s_last_unsol st' = s_last_unsol st.
+Proof.
+  unfold rd_error. destruct k; intros H; [injection H as <- _; reflexivity|].
+  destruct (s_assoc st); injection H as <- _; reflexivity.
+Qed.
+
+Lemma fail_running_lu cfg st e st' o : fail_running cfg st e = (st', o) -> s_last_unsol st' = s_last_unsol st.
+Proof.
+  unfold fail_running. destruct (s_run st); intros H.
+  - injection H as <- _; reflexivity.
+  - destruct (nr_error _ _ _ _) as [st1 o1] eqn:E. injection H as <- _. cbn [s_last_unsol set_run]. eapply nr_error_lu; eauto.
+  - destruct (rd_error _ _ _ _) as [st1 o1] eqn:E. injection H as <- _. cbn [s_last_unsol set_run]. eapply rd_error_lu; eauto.
+  - injection H as <- _; reflexivity.
+Qed.
+
+Lemma send_nonread_lu cfg st k objs sd st' o : send_nonread cfg st k objs sd = (st', o) -> s_last_unsol st' = s_last_unsol st.
+Proof.
+  unfold send_nonread. destruct (fits cfg objs); intros H; [injection H as <- _; reflexivity|].
+  destruct (nr_error _ _ _ _) as [st2 o2] eqn:E. injection H as <- _. cbn [s_last_unsol set_run].
+  apply nr_error_lu in E. exact E.
+Qed.
+
+Lemma start_nonread_lu cfg st k objs st' o : start_nonread cfg st k objs = (st', o) -> s_last_unsol st' = s_last_unsol st.
+Proof.
+  unfold start_nonread. destruct (send_nonread _ _ _ _ _) as [st1 o1] eqn:E. intros H. injection H as <- _.
+  eapply send_nonread_lu; eauto.
+Qed.
+
+Lemma start_read_lu cfg st k objs st' o : start_read cfg st k objs = (st', o) -> s_last_unsol st' = s_last_unsol st.
+Proof.
+  unfold start_read. destruct (fits cfg objs); intros H; [injection H as <- _; reflexivity|].
+  destruct (rd_error _ _ _ _) as [st2 o2] eqn:E. injection H as <- _. cbn [s_last_unsol set_run].
+  apply rd_error_lu in E. exact E.
+Qed.
+
+Lemma start_user_lu cfg st tok t st' o : start_user cfg st tok t = (st', o) -> s_last_unsol st' = s_last_unsol st.
+Proof.
+  unfold start_user. destruct t; intros H; try (eapply start_read_lu; eassumption);
+    try (eapply start_nonread_lu; eassumption). injection H as <- _; reflexivity.
+Qed.
+
+Lemma pump_lu fuel cfg : forall st st' o, pump fuel cfg st = (st', o) -> s_last_unsol st' = s_last_unsol st.
+Proof.
+  induction fuel as [|f IH]; intros st st' o H; cbn [pump] in H; [injection H as <- _; reflexivity|].
+  destruct (negb (s_conn st)); [injection H as <- _; reflexivity|].
+  destruct (s_run st); try (injection H as <- _; reflexivity).
+  destruct (next_task cfg st) as [|t|tok t|a|]; try (injection H as <- _; reflexivity).
+  - destruct (start_user _ _ _ _) as [st1 o1] eqn:E1. destruct (pump f cfg st1) as [st2 o2] eqn:E2.
+    injection H as <- _. rewrite (IH _ _ _ E2). apply start_user_lu in E1. exact E1.
+  - destruct (start_nonread _ _ _ _) as [st1 o1] eqn:E1. destruct (pump f cfg st1) as [st2 o2] eqn:E2.
+    injection H as <- _. rewrite (IH _ _ _ E2). apply start_nonread_lu in E1. exact E1.
+  - destruct (start_read _ _ _ _) as [st1 o1] eqn:E1. destruct (pump f cfg st1) as [st2 o2] eqn:E2.
+    injection H as <- _. rewrite (IH _ _ _ E2). apply start_read_lu in E1. exact E1.
+Qed.
+
+Lemma then_pump_lu cfg st1 o1 st' o : then_pump cfg (st1, o1) = (st', o) -> s_last_unsol st' = s_last_unsol st1.
+Proof.
+  unfold then_pump, run_pump. destruct (pump _ cfg st1) as [st2 o2] eqn:E. intros H. injection H as <- _.
+  eapply pump_lu; eauto.
+Qed.
+
+Lemma fire_lu cfg st st' o : fire cfg st = (st', o) -> s_last_unsol st' = s_last_unsol st.
+Proof.
+  unfold fire. destruct (s_run st); try (apply pump_lu);
+    destruct (fail_running cfg st ETimeout) as [st1 o1] eqn:E; intros H; apply then_pump_lu in H; rewrite H;
+    eapply fail_running_lu; eauto.
+Qed.
+
+Lemma advance_lu fuel cfg : forall st target st' o, advance fuel cfg st target = (st', o) -> s_last_unsol st' = s_last_unsol st.
+Proof.
+  induction fuel as [|f IH]; intros st target st' o H; cbn [advance] in H; [injection H as <- _; reflexivity|].
+  destruct (wake_time cfg st) as [d|]; [|injection H as <- _; reflexivity].
+  destruct (d <=? target); [|injection H as <- _; reflexivity].
+  destruct (fire _ _) as [st1 o1] eqn:E1. destruct (advance f cfg st1 target) as [st2 o2] eqn:E2.
+  injection H as <- _. rewrite (IH _ _ _ _ E2). apply fire_lu in E1. exact E1.
+Qed.
+
+Lemma handle_nonread_response_lu cfg st k seq sd h objs v st' o :
+  handle_nonread_response cfg st k seq sd h objs v = (st', o) -> s_last_unsol st' = s_last_unsol st.
+Proof.
+  unfold handle_nonread_response, nr_success, nr_failed. destruct k as [tok ph hs|tok|tok fc|tok cold|a].
+  - destruct v; try (intros H; injection H as <- _; reflexivity).
+    destruct (compare hs objs); [|intros H; injection H as <- _; reflexivity].
+    destruct ph; try (intros H; injection H as <- _; reflexivity). apply send_nonread_lu.
+  - destruct objs; intros H; injection H as <- _; reflexivity.
+  - destruct objs; intros H; injection H as <- _; reflexivity.
+  - destruct v; try (intros H; injection H as <- _; reflexivity).
+    destruct (restart_delay objs); intros H; injection H as <- _; reflexivity.
+  - intros H; injection H as <- _. unfold auto_response. destruct a; try destruct (iin1_restart _); reflexivity.
+Qed.
+
+(* the effect of a receive step on the record *)
+Definition unsol_new (cfg : mcfg) (st : mstate) (src : N) (frag : list byte) (v : verdict) : option (list byte * list byte) :=
+  if s_conn st then
+    match parse_response frag with
+    | PResponse h objs => if h_unsol h && unsol_accepts cfg st src h objs v then Some (hdr_bytes h, objs) else None
+    | PError => None
+    end
+  else None.
+
+Lemma handle_unsol_lu cfg st src h objs v items st' o :
+  handle_unsol cfg st src h objs v items = (st', o) ->
+  s_last_unsol st' = if unsol_accepts cfg st src h objs v then Some (hdr_bytes h, objs) else s_last_unsol st.
+Proof.
+  unfold handle_unsol, unsol_accepts.
+  destruct (_ && s_assoc st); cbn [andb]; [|intros H; injection H as <- _; reflexivity].
+  destruct (_ || _); cbn [andb]; [|intros H; injection H as <- _; apply process_iin_last_unsol].
+  destruct v; try (intros H; injection H as <- _; apply process_iin_last_unsol).
+  destruct (match s_last_unsol _ with Some _ => _ | None => _ end); intros H; injection H as <- _; reflexivity.
+Qed.
+
+Lemma on_rx_lu cfg st src frag v items st' o :
+  on_rx cfg st src frag v items = (st', o) ->
+  s_last_unsol st' = match unsol_new cfg st src frag v with Some x => Some x | None => s_last_unsol st end.
+Proof.
+  unfold on_rx, unsol_new. destruct (s_conn st); cbn [negb]; [|intros H; injection H as <- _; reflexivity].
+  destruct (parse_response frag) as [|h objs].
+  - destruct (s_run st); try apply fail_running_lu. intros H; injection H as <- _; reflexivity.
+  - destruct (s_run st) as [|k seq d sd|k seq first d sd|tok d] eqn:Hr.
+    + destruct (h_unsol h); cbn [andb]; [|intros H; injection H as <- _; reflexivity].
+      intros H. rewrite (handle_unsol_lu _ _ _ _ _ _ _ _ _ H). destruct (unsol_accepts _ _ _ _ _ _); reflexivity.
+    + unfold on_nonread_rx. destruct (h_unsol h); cbn [andb].
+      { intros H. rewrite (handle_unsol_lu _ _ _ _ _ _ _ _ _ H). destruct (unsol_accepts _ _ _ _ _ _); reflexivity. }
+      destruct (negb (src =? c_addr cfg)); [intros H; injection H as <- _; reflexivity|].
+      destruct (negb (c_seq (h_ctrl h) =? seq)); [intros H; injection H as <- _; reflexivity|].
+      destruct (negb (_ && _)); [apply fail_running_lu|].
+      destruct (iin2_bad _); [apply fail_running_lu|].
+      destruct (s_assoc st).
+      * destruct (handle_nonread_response _ _ _ _ _ _ _ _) as [st1 o1] eqn:E. intros H. injection H as <- _.
+        rewrite (handle_nonread_response_lu _ _ _ _ _ _ _ _ _ _ E). apply process_iin_last_unsol.
+      * destruct (nr_error _ _ _ _) as [st1 o1] eqn:E. intros H. injection H as <- _. cbn [s_last_unsol set_run].
+        eapply nr_error_lu; eauto.
+    + unfold on_read_rx. destruct (h_unsol h); cbn [andb].
+      { intros H. rewrite (handle_unsol_lu _ _ _ _ _ _ _ _ _ H). destruct (unsol_accepts _ _ _ _ _ _); reflexivity. }
+      destruct (negb (src =? c_addr cfg)); [intros H; injection H as <- _; reflexivity|].
+      destruct (negb (c_seq (h_ctrl h) =? seq)); [intros H; injection H as <- _; reflexivity|].
+      destruct (_ && negb first); [apply fail_running_lu|].
+      destruct (negb _ && first); [apply fail_running_lu|].
+      destruct (negb _ && negb _); [apply fail_running_lu|].
+      destruct (iin2_bad _); [apply fail_running_lu|].
+      destruct (negb (s_assoc st)); [apply fail_running_lu|].
+      destruct v; try (intros H; rewrite (fail_running_lu _ _ _ _ _ H); apply process_iin_last_unsol).
+      destruct (c_fin _).
+      * destruct k; intros H; injection H as <- _; cbn [s_last_unsol set_run set_integ set_autos]; apply process_iin_last_unsol.
+      * intros H; injection H as <- _. cbn [s_last_unsol set_run set_seq]. apply process_iin_last_unsol.
+    + destruct (h_unsol h) eqn:Hu; cbn [andb].
+      * destruct (handle_unsol _ _ _ _ _ _ _) as [st1 o1] eqn:E. destruct (fail_running cfg st1 EBadHeaders) as [st2 o2] eqn:E2.
+        intros H. injection H as <- _. rewrite (fail_running_lu _ _ _ _ _ E2), (handle_unsol_lu _ _ _ _ _ _ _ _ _ E).
+        destruct (unsol_accepts _ _ _ _ _ _); reflexivity.
+      * destruct (fail_running cfg st EBadHeaders) as [st2 o2] eqn:E2. intros H. injection H as <- _.
+        eapply fail_running_lu; eauto.
+Qed.
+
+Definition ends_session (st : mstate) (ev : mevent) : bool :=
+  s_conn st && match ev with EDisable | EDropIo | EShutdown => true | _ => false end.
+
+Lemma on_event_lu cfg st ev st' o :
+  on_event cfg st ev = (st', o) -> ends_session st ev = false ->
+  s_last_unsol st' =
+  match ev with
+  | ERx src frag v _ => match unsol_new cfg st src frag v with Some x => Some x | None => s_last_unsol st end
+  | _ => s_last_unsol st
+  end.
+Proof.
+  unfold ends_session. destruct ev as [src frag v items|ms|tok t| | | | | |]; cbn [on_event]; intros H He.
+  - destruct (on_rx _ _ _ _ _ _) as [st1 o1] eqn:E. injection H as <- _. eapply on_rx_lu; eauto.
+  - injection H as <- _; reflexivity.
+  - unfold on_user in H. destruct (negb (s_assoc st)); [injection H as <- _; reflexivity|].
+    destruct (negb (s_conn st)); [injection H as <- _; reflexivity|].
+    destruct (_ <? _)%nat; injection H as <- _; reflexivity.
+  - destruct (s_conn st); [discriminate|]. injection H as <- _; reflexivity.
+  - destruct (s_conn st); [injection H as <- _; reflexivity|].
+    unfold try_connect in H. destruct (_ && _); injection H as <- _; reflexivity.
+  - destruct (s_conn st); [discriminate|]. injection H as <- _; reflexivity.
+  - unfold try_connect in H. destruct (_ && _); injection H as <- _; reflexivity.
+  - injection H as <- _; reflexivity.
+  - destruct (s_conn st); [discriminate|]. injection H as <- _; reflexivity.
+Qed.
+
+Lemma mstep_lu cfg st ev :
+  ends_session st ev = false ->
+  s_last_unsol (fst (mstep cfg st ev)) =
+  match ev with
+  | ERx src frag v _ =>
+    if s_stopped st then s_last_unsol st else
+    match unsol_new cfg st src frag v with Some x => Some x | None => s_last_unsol st end
+  | _ => s_last_unsol st
+  end.
+Proof.
+  intros He. unfold mstep. destruct (s_stopped st); [destruct ev; reflexivity|].
+  destruct (on_event cfg st ev) as [st0 o0] eqn:E0. destruct (then_pump cfg (st0, o0)) as [st1 o1] eqn:E1.
+  destruct (advance _ cfg st1 _) as [st2 o2] eqn:E2. cbn [fst].
+  rewrite (advance_lu _ _ _ _ _ _ E2), (then_pump_lu _ _ _ _ _ E1). eapply on_event_lu; eauto.
+Qed.
+
+Lemma state_at_S cfg evs k ev :
+  nth_error evs k = Some ev -> state_at cfg evs (S k) = fst (mstep cfg (state_at cfg evs k) ev).
+Proof.
+  intros H. unfold state_at, final. rewrite (firstn_S_nth _ _ _ H), final_from_app. reflexivity.
+Qed.
+
+(* C15.4 duplicate_unsolicited_confirmed_not_delivered.  If an unsolicited fragment is accepted at
+   step j and the very same fragment (header and objects) arrives again at step k, no other
+   unsolicited fragment having been accepted and the session not having ended in between, then
+   - provided it is still acceptable (source, association, start-up gate) - step k reports it as a
+   repeat, confirms it exactly when it asks for confirmation, and does not call the handler. *)
+Theorem duplicate_unsolicited_confirmed_not_delivered :
+  forall cfg evs j k src frag v items h objs o,
+  (j < k)%nat ->
+  nth_error evs j = Some (ERx src frag v items) -> nth_error evs k = Some (ERx src frag v items) ->
+  parse_response frag = PResponse h objs -> h_unsol h = true ->
+  accepts cfg (state_at cfg evs j) (ERx src frag v items) = true ->
+  accepts cfg (state_at cfg evs k) (ERx src frag v items) = true ->
+  (forall i ev, (j < i < k)%nat -> nth_error evs i = Some ev ->
+     ends_session (state_at cfg evs i) ev = false /\
+     match ev with ERx s f w _ => unsol_new cfg (state_at cfg evs i) s f w = None | _ => True end) ->
+  ends_session (state_at cfg evs j) (ERx src frag v items) = false ->
+  nth_error (run cfg evs) (S k) = Some o ->
+  act o = OInfoUnsol true (c_seq (h_ctrl h)) ::
+          (if c_con (h_ctrl h) then [OTxConfirm (c_addr cfg) true (c_seq (h_ctrl h))] else []).
+Proof.
+  intros cfg evs j k src frag v items h objs o Hjk Hj Hk Hp Hu Haj Hak Hbetween Hej Hn.
+  (* the record after step j, kept until step k *)
+  assert (Hrec : forall i, (j < i <= k)%nat -> s_last_unsol (state_at cfg evs i) = Some (hdr_bytes h, objs)).
+  { intros i Hi. induction i as [|i IH]; [lia|].
+    destruct (Nat.eq_dec i j) as [->|Hne].
+    - rewrite (state_at_S _ _ _ _ Hj), mstep_lu by exact Hej.
+      unfold accepts in Haj. rewrite Hp, Hu in Haj.
+      destruct (s_stopped (state_at cfg evs j)); [discriminate|]. cbn [negb andb] in Haj.
+      unfold unsol_new. destruct (s_conn (state_at cfg evs j)); [|discriminate]. cbn [andb] in Haj.
+      rewrite Hp, Hu, Haj. reflexivity.
+    - assert (Hi' : (j < i <= k)%nat) by lia. specialize (IH Hi').
+      destruct (nth_error evs i) as [ev|] eqn:Hev.
+      2:{ apply nth_error_None in Hev. apply nth_error_le in Hk. lia. }
+      destruct (Hbetween i ev ltac:(lia) Hev) as [He Hnone].
+      rewrite (state_at_S _ _ _ _ Hev), mstep_lu by exact He.
+      destruct ev; try exact IH. rewrite Hnone. destruct (s_stopped _); exact IH. }
+  destruct (run_nth _ _ _ _ Hn) as (ev & Hev & ->). rewrite Hk in Hev. injection Hev as <-.
+  fold (state_at cfg evs k).
+  unfold accepts in Hak. rewrite Hp, Hu in Hak.
+  destruct (s_stopped (state_at cfg evs k)) eqn:Hs; [discriminate|]. cbn [negb andb] in Hak.
+  destruct (s_conn (state_at cfg evs k)) eqn:Hc; [|discriminate]. cbn [andb] in Hak.
+  eapply duplicate_unsolicited_local; eauto; try (apply Hrec; lia).
+Qed.
+
+(* ---------------------------------------------------------------------------------------- *)
+
+Fixpoint steps_from (cfg : mcfg) (st : mstate) (evs : list mevent) : list (mstate * mevent) :=
+  match evs with
+  | [] => []
+  | ev :: r => (st, ev) :: steps_from cfg (fst (mstep cfg st ev)) r
+  end.
+(* the steps of a run: the state before each stimulus, and the stimulus *)
+Definition steps (cfg : mcfg) (evs : list mevent) : list (mstate * mevent) := steps_from cfg (fst (minit cfg)) evs.
+
+Lemma cbs_app a b : cbs (a ++ b) = cbs a ++ cbs b.
+Proof. unfold cbs. rewrite map_app, filter_app. reflexivity. Qed.
+
+Lemma delivers_stopped cfg st ev : s_stopped st = true -> delivers cfg st ev = None.
+Proof. intros Hs. destruct ev; try reflexivity. unfold delivers. rewrite Hs. reflexivity. Qed.
+
+Lemma delivered_step cfg st ev :
+  cbs (snd (mstep cfg st ev)) = match delivers cfg st ev with Some d => bracket d | None => [] end.
+Proof.
+  destruct (s_stopped st) eqn:Hs.
+  - rewrite delivers_stopped, mstep_stopped by assumption. reflexivity.
+  - apply delivered_local. exact Hs.
+Qed.
+
+(* C15.5 delivered_once_in_order.  Over a whole run the sequence of ReadHandler callbacks is the
+   concatenation, in the order of arrival, of one begin / items / end bracket per fragment accepted
+   for delivery (an unsolicited fragment that is accepted and not a repeat; a fragment of the
+   answer to a READ), each bracket carrying the fragment's header and its items in wire order -
+   nothing else, nothing twice, nothing reordered. *)
+Theorem delivered_once_in_order : forall cfg evs,
+  cbs (concat (run cfg evs)) =
+  flat_map (fun p => match delivers cfg (fst p) (snd p) with Some d => bracket d | None => [] end) (steps cfg evs).
+Proof.
+  intros cfg evs. unfold run, steps. destruct (minit cfg) as [st0 o0] eqn:E0. cbn [fst concat].
+  rewrite cbs_app.
+  assert (H0 : cbs o0 = []).
+  { rewrite cbs_act. unfold minit in E0. destruct (run_pump cfg _) as [st1 o1] eqn:E1.
+    destruct (advance 2 cfg st1 1) as [st2 o2] eqn:E2. injection E0 as <- <-.
+    rewrite act_app, act_emit, act_app. cbn [active app].
+    rewrite (act_passive o1), (act_passive o2); [reflexivity| |].
+    - eapply advance_passive; eauto.
+    - eapply run_pump_passive; eauto. }
+  rewrite H0. cbn [app]. clear E0 H0 o0.
+  revert st0. induction evs as [|ev evs IH]; intros st; cbn [run_from steps_from flat_map concat]; [reflexivity|].
+  destruct (mstep cfg st ev) as [st1 o1] eqn:E. cbn [concat fst snd]. rewrite cbs_app, IH. f_equal.
+  pose proof (delivered_step cfg st ev) as Hd. rewrite E in Hd. exact Hd.
+Qed.
+
+(* the rule for every fragment of the answer to a READ that is delivered: from the addressed
+   outstation, sequence number = request + fragments delivered before, FIR on the first only, and
+   a fragment without FIN requests confirmation *)
+Theorem read_fragment_rule : forall cfg evs k o rt hdr,
+  nth_error (run cfg evs) (S k) = Some o -> In (OCbBegin rt hdr) (map snd o) -> rt <> RtUnsol ->
+  exists src frag v items h objs r,
+    nth_error evs k = Some (ERx src frag v items) /\ parse_response frag = PResponse h objs /\
+    h_unsol h = false /\ hdr = hdr_bytes h /\ src = c_addr cfg /\ v = VOk /\ iin2_bad (h_iin2 h) = false /\
+    last_request (hist cfg evs k) = Some r /\ rq_fc r = 1 /\ answers r h.
+Proof.
+  intros cfg evs k o rt hdr Hn Hin Hrt.
+  destruct (run_nth _ _ _ _ Hn) as (ev & Hev & ->). fold (state_at cfg evs k) in *.
+  set (st := state_at cfg evs k) in *.
+  destruct (s_stopped st) eqn:Hs.
+  { apply stopped_no_obs in Hin; [|exact Hs]. destruct Hin; discriminate. }
+  apply in_act in Hin; [|reflexivity]. rewrite act_mstep in Hin by assumption.
+  destruct ev as [src frag v items|ms|tok t| | | | | |]; try contradiction.
+  unfold rx_act in Hin. destruct (s_conn st); cbn [negb] in Hin; [|contradiction].
+  destruct (parse_response frag) as [|h objs] eqn:Hp; [contradiction|].
+  destruct (h_unsol h) eqn:Hu.
+  { exfalso. unfold unsol_act, unsol_confirm in Hin. brk_in Hin; injection Hin as <- _; apply Hrt; reflexivity. }
+  destruct (accepted_answer cfg st src h) eqn:Ha; [|contradiction].
+  destruct (accepted_answers cfg evs k src h (nth_error_le _ _ _ Hev) Ha) as (Hsrc & Hi & r & Hl & Hans).
+  exists src, frag, v, items, h, objs, r.
+  pose proof (run_tracks cfg evs k (nth_error_le _ _ _ Hev)) as Ht. fold (state_at cfg evs k) in Ht. fold st in Ht.
+  unfold tracks in Ht.
+  destruct (s_run st) as [|kk q d sd|kk q f d sd|tok d] eqn:Hr; try contradiction.
+  - exfalso. unfold sol_confirm, nr_act in Hin. brk_in Hin.
+  - destruct (s_assoc st && _) eqn:Hv; [|contradiction].
+    apply Bool.andb_true_iff in Hv. destruct Hv as [_ Hv]. destruct v; try discriminate.
+    destruct Ht as [(r0 & ro & n & Hl' & _) _]. rewrite Hl in Hl'. injection Hl' as ->.
+    unfold rd_act, sol_confirm in Hin. brk_in Hin.
+    injection Hin as _ <-. split; [exact Hev|]. split; [exact Hp|].
+    repeat (split; [reflexivity || assumption|]). exact Hans.
+Qed.
